@@ -39,6 +39,7 @@ def mk_mat(u, name="A"):
 @unit("C17.LU", ["C17", "C07"], [LS + "lu_solver.LUSolver.__init__", LS + "lu_solver.LUSolver.solve", LS + "linear_solver.LinearSolver.__init__"])
 def lu(u):
     A, k = mk_mat(u)
+    A.fmt = ["coo", "csr", "csc"][u.path.choose_n(3, "sparse format of the matrix")]
     calls = []
 
     def splu(it, mat):
@@ -55,18 +56,23 @@ def lu(u):
         u.ensure(val.exc.name() == "LinearSolverError", "init:raises_only{LinearSolverError}", desc=f"escaping {val.exc!r}")
         return
     s = val
-    u.ensure(calls[0][1] is A, "init:factorises_the_given_matrix")
+    fact = calls[0][1]
+    fact_T = getattr(fact, "transposed_of", None) is A  # the factorised matrix is A^T (a legitimate choice: CSR of A is CSC of A^T)
+    u.ensure(fact is A or fact_T, "init:factorises_the_given_matrix_or_its_transpose")
     rhs = u.vec("rhs", k)
     trans = u.path.choose("trans")
     x = u.method(s, "solve", rhs, trans)
     sc = [c for c in calls if c[0] == "solve"]
     u.ensure(len(sc) == 1 and sc[0][1] is rhs, "solve:one_back-substitution_with_the_given_rhs")
-    u.ensure(sc[0][2] == ("T" if trans else "N"), "solve:trans='T'_iff_trans")
+    u.ensure(len(sc) == 1 and sc[0][2] in ("T", "N"), "solve:trans_flag_is_'T'_or_'N'")
+    # F.solve(b, 'N') = M^-1 b and F.solve(b, 'T') = M^-T b for the factorised M: the system solved is the one with
+    # A^T exactly when (M is A^T) differs from (flag is 'T')
+    u.ensure(len(sc) == 1 and ((sc[0][2] == "T") != fact_T) == bool(trans), "solve:solves_with_A^T_iff_trans")
     u.cover("end")
 
 
 def _iter_unit(cls_mod, cls_name, lib_name, symmetric):
-    @unit(f"C17.{cls_name}", ["C17", "C07"], [LS + f"{cls_mod}.{cls_name}.solve", LS + f"{cls_mod}.{cls_name}.__init__"], config={"max_paths": 100})
+    @unit(f"C17.{cls_name}", ["C17", "C07", "C09", "C10"], [LS + f"{cls_mod}.{cls_name}.solve", LS + f"{cls_mod}.{cls_name}.__init__"], config={"max_paths": 100})
     def solver(u):
         A, k = mk_mat(u)
         s = u.construct(LS + f"{cls_mod}.{cls_name}", A, symmetric=True if symmetric else u.path.choose("symmetric"))
@@ -125,6 +131,14 @@ def _iter_unit(cls_mod, cls_name, lib_name, symmetric):
                     tv = kw[tk]
                     u.ensure(tv <= cap if isinstance(tv, (int, float)) else ops._real(tv) <= ops._real(cap), f"{tk}_not_looser_than_the_assumed_contract")
             u.ensure(info == 0, "returns_a_vector_only_when_info==0")
+            # the solver object keeps no state between solves: the condition estimator's extra solves (report_rcond)
+            # and earlier Newton steps must not change what a later solve computes (C09 / C10)
+            n_before = len(calls)
+            rhs2 = u.vec("rhs2", k)
+            kind2, val2 = u.raised(lambda: u.method(s, "solve", rhs2, trans, None))
+            later = calls[n_before:]
+            u.ensure(len(later) == 1 and later[0][1] is rhs2 and later[0][2].get("x0") is None, "a_later_solve_without_a_guess_starts_from_the_library_default(no_state_kept_between_solves)", props=["C09", "C10", "C17"],
+                     desc=f"second solve called the iteration with x0={later[0][2].get('x0') if later else None!r}")
         u.cover("end")
 
     return solver
